@@ -323,6 +323,10 @@ public:
         if (!std::is_sorted(ticks.begin(), ticks.end())) {
             throw UnsortedTicks("DataArray::appendRangeDimension");
         }
+        if (unit.size() > 0 && !util::isSIUnit(unit)) {
+            throw InvalidUnit("Unit is not an atomic SI. Note: So far composite units are not supported",
+                              "DataArray::appendRangeDimension");
+        }
         RangeDimension dim = backend()->createRangeDimension(backend()->dimensionCount() + 1, ticks);
         if (label.size() > 0)
             dim.label(label);
@@ -376,6 +380,10 @@ public:
                                             const std::string &unit="", double offset=0.0) {
         if (sampling_interval <= 0.0) {
             throw std::runtime_error("DataArray::appendSampledDimension: Sampling intervals must be larger than 0.0!");
+        }
+        if (unit.size() > 0 && !util::isSIUnit(unit)) {
+            throw InvalidUnit("Unit is not a SI unit. Note: so far, only atomic SI units are supported.",
+                              "DataArray::appendSampledDimension");
         }
         SampledDimension dim = backend()->createSampledDimension(backend()->dimensionCount() + 1,
                                                                  sampling_interval);
